@@ -388,6 +388,9 @@ func busyGoroutines(dump string) int {
 		if strings.Contains(blk, "vt.Watch") {
 			continue // this watchdog
 		}
+		if lines := strings.SplitN(blk, "\n", 3); len(lines) > 1 && strings.HasPrefix(lines[1], "internal/synctest.Run(") {
+			continue // a bubble's own root: it shows as runnable while it waits for the bubble to move
+		}
 		// waiting for another goroutine (or the network): not busy. Everything else - running, runnable, in a system
 		// call (disk I/O on a stalled machine), waiting for the world to be stopped by a stack dump - is.
 		idle := false
